@@ -55,8 +55,11 @@ def gen_cases(rng, tier):
     add(b"v", "string", [b"hello", b"", b"world!!"], kind="fixed")
     add(b"one", "int32", [struct.pack("<3i", 1, -2, 3)], kind="fixed")
     add(b"x" * 255, "float64", [b"", struct.pack("<d", 1.5)], kind="fixed")
-    # exact fill of the minimum collection (16 + 16+4064 = 4096: no free-space object), then one more element
-    add(b"fill", "string", [rbytes(rng, 4064), b"a"], kind="edge")
+    # a first element of 4048 bytes is the largest for which createNewHeap keeps the minimum size (16 + 16+4048 + 16 = 4096);
+    # 4064 bytes would fill a 4096-byte collection exactly but gets 8192; 8144 bytes need exactly 8192
+    add(b"fill", "string", [rbytes(rng, 4048), b"a"], kind="edge")
+    add(b"fill2", "string", [b"b", rbytes(rng, 4064 - 24), b"a"], kind="edge")   # second element fills the collection: freeSpace = 0
+    add(b"fill3", "int64", [rbytes(rng, 8144), rbytes(rng, 8)], kind="big")
     # 170 objects of 24 bytes = 4080: full collection, the 171st rolls over
     add(b"roll", "string", [rbytes(rng, rng.choice([1, 7, 8])) for _ in range(171)], kind="many")
     for base in BASES:
@@ -64,14 +67,14 @@ def gen_cases(rng, tier):
     n_edge, n_big, n_many, n_small = (10, 4, 5, 24) if q else (60, 30, 30, 120)
     for _ in range(n_edge):
         base = rng.choice(BASES)
-        ls = [rng.randint(4056, 4088) for _ in range(rng.choice([1, 2, 2, 3]))]
+        ls = [rng.choice([4048, 4049, 4056, 4064, 4065, rng.randint(4040, 4088)]) for _ in range(rng.choice([1, 2, 2, 3]))]
         ls += [rng.choice([0, 1, 7, 8, 9, 24]) for _ in range(rng.randint(0, 4))]
         rng.shuffle(ls)
         es = [elem(rng, base, l) for l in ls]
         add(c01file.rand_name(rng), base, es, split_dims(rng, len(es)), kind="edge")
     for _ in range(n_big):
         base = rng.choice(BASES)
-        ls = [rng.choice([4097, 4200, 8161, 8176, 8177, rng.randint(4097, 13000)])] + [rng.choice([0, 1, 7, 8, 9, 100, 2000]) for _ in range(rng.randint(0, 5))]
+        ls = [rng.choice([4097, 8137, 8144, 8145, 8152, 8153, rng.randint(4097, 13000)])] + [rng.choice([0, 1, 7, 8, 9, 100, 2000]) for _ in range(rng.randint(0, 5))]
         rng.shuffle(ls)
         es = [elem(rng, base, l) for l in ls]
         add(c01file.rand_name(rng), base, es, split_dims(rng, len(es)), kind="big")
